@@ -63,7 +63,7 @@ func genC19(t *rapid.T) C19Case {
 	return C19Case{
 		Addr: genAddr(t),
 		Op:   rapid.SampledFrom([]string{"bind", "bind", "listen", "connect"}).Draw(t, "op"),
-		Pre:  rapid.SampledFrom([]string{"fresh", "fresh", "failed-bind", "bound", "served", "stale-socket"}).Draw(t, "pre"),
+		Pre:  rapid.SampledFrom([]string{"fresh", "fresh", "failed-bind", "bound", "bound-same", "served", "stale-socket"}).Draw(t, "pre"),
 	}
 }
 
@@ -241,9 +241,20 @@ func execC19(c C19Case, bound time.Duration) (facts map[string]bool, err error) 
 		if perr := Guard(func() error { svc.Bind(ctx, "nonsense"); return nil }); perr != nil {
 			return facts, fmt.Errorf("pre-state: Bind(\"nonsense\") %v", perr)
 		}
-	case "bound":
+	case "bound", "bound-same":
 		prevAddr = "unix:" + filepath.Join(dir, "pre-"+u)
-		if berr := svc.Bind(ctx, prevAddr); berr != nil {
+		if c.Pre == "bound-same" && m.class == "strict" && m.fsPath != "" {
+			prevAddr = addr // the very same string is bound twice, with no serve cycle in between
+			facts["same-address-bound-twice"] = true
+		}
+		berr := svc.Bind(ctx, prevAddr)
+		if berr != nil && prevAddr == addr {
+			// the string under test cannot be bound here (missing directory, a directory, ...): use the neutral pre-state address
+			facts["same-address-bound-twice"] = false
+			prevAddr = "unix:" + filepath.Join(dir, "pre-"+u)
+			berr = svc.Bind(ctx, prevAddr)
+		}
+		if berr != nil {
 			return facts, fmt.Errorf("HARNESS: pre-state Bind: %v", berr)
 		}
 		defer func() {
@@ -266,7 +277,7 @@ func execC19(c C19Case, bound time.Duration) (facts map[string]bool, err error) 
 		}
 	}
 	var preListener net.Listener
-	if c.Pre == "bound" {
+	if c.Pre == "bound" || c.Pre == "bound-same" {
 		preListener, _ = svc.GetListener()
 	}
 
@@ -372,7 +383,7 @@ func execC19(c C19Case, bound time.Duration) (facts map[string]bool, err error) 
 					return facts, fmt.Errorf("%s(%q): an abstract address created the file %q", c.Op, addr, m.target)
 				}
 			}
-			if c.Op == "bind" && c.Pre != "bound" && len(addr)%2 == 0 {
+			if c.Op == "bind" && c.Pre != "bound" && c.Pre != "bound-same" && len(addr)%2 == 0 {
 				// variant: shut down without ever serving - the endpoint must be released all the same
 				facts["shutdown-without-serving"] = true
 				svc.Shutdown()
@@ -422,7 +433,7 @@ func execC19(c C19Case, bound time.Duration) (facts map[string]bool, err error) 
 	}
 after:
 	// whatever happened, the object must still be able to bind and serve a good address
-	if c.Pre == "bound" && preListener != nil {
+	if (c.Pre == "bound" || c.Pre == "bound-same") && preListener != nil {
 		preListener.Close()
 	}
 	if l, _ := svc.GetListener(); l != nil && facts["refused"] {
@@ -503,7 +514,7 @@ func TestC19Grammar(t *testing.T) {
 	for _, a := range []string{"foo", "", "unix", "unix;x", "@{U}", "{DIR}/abs-{U}", ";"} {
 		add(a)
 	}
-	pres := []string{"fresh", "failed-bind", "bound", "served", "stale-socket"}
+	pres := []string{"fresh", "failed-bind", "bound", "bound-same", "served", "stale-socket"}
 	ops := []string{"bind", "listen", "connect"}
 	shard, nshards := Shard()
 	i := 0
